@@ -7,6 +7,15 @@ def f2b(x):
 def b2f(s):
     return struct.unpack('<d', struct.pack('<Q', int(s)))[0]
 
+def ulps(x, k):
+    """x moved by k units in the last place (k may be negative); finite x"""
+    import struct
+    b = struct.unpack('<q', struct.pack('<d', x))[0]
+    if b < 0: b = -(b & 0x7fffffffffffffff)
+    b += k
+    if b < 0: b = (-b) | (1 << 63)
+    return struct.unpack('<d', struct.pack('<Q', b & 0xffffffffffffffff))[0]
+
 def ints(l):
     if l is None:
         return 'nil'
@@ -381,3 +390,57 @@ def foreign(q, rng, p_wrap=0.5, p_use=0.2):
             if toks[0] in wrapped.values():
                 pass
     return p if used else None
+
+
+# ---------------------------------------------------------------------------------------------------------------------
+# rejected calls first
+
+def error_prelude(p, rng, k=None):
+    """a batch of calls that the library must reject with an error (one per kind of precondition), plus the accepted
+    variant next to each: whatever the rest of the program does afterwards must not be affected by the error paths taken"""
+    def T(shape, base=1.0):
+        n = prod(shape)
+        name = p.fresh('e')
+        p.lines.append('%s = tensorof U %d %s' % (name, len(shape), nested(shape, [base + 0.25 * i for i in range(n)])) if len(shape) <= 4 else '')
+        return name
+    a432, b235, b435 = T([4, 2, 3]), T([2, 3, 5], 2.0), T([4, 3, 5], 3.0)
+    v3, v4, m23, m32 = T([3]), T([4]), T([2, 3]), T([3, 2])
+    calls = [
+        'matmul %s %s' % (a432, b235),      # matrices fit, batch dimensions do not broadcast (left one does, right one does not)
+        'matmul %s %s' % (b235, a432), 'matmul %s %s' % (m23, m23), 'matmul %s %s' % (v3, m32),
+        'matmul %s %s' % (a432, b435),      # accepted
+        'add %s %s' % (v3, v4), 'sub %s %s' % (m23, m32), 'mul %s %s' % (a432, b235), 'div %s %s' % (v4, m23),
+        'add %s %s' % (m23, v3),            # accepted
+        'dot %s %s' % (v3, v4), 'dot %s %s' % (m23, a432), 'elmax %s %s' % (v3, v4), 'eq %s %s' % (m23, m32),
+        'concat %s,%s 0' % (v3, m23), 'concat %s,%s 1' % (m23, m32), 'concat %s,%s 5' % (v3, v3), 'concat %s,%s 0' % (v3, v4),
+        'slice %s 0:5' % v3, 'slice %s 2:1' % v3, 'slice %s 0:1,0:1' % v3, 'patch %s 0:2 %s' % (v3, v4), 'patch %s - %s' % (v3, m23),
+        'reshape %s 7' % v3, 'reshape %s 0' % v3, 'broadcast %s 2,4' % v3, 'broadcast %s 2' % m23, 'broadcast %s 2,3' % v3,
+        'squeeze %s 0' % v3, 'unsqueeze %s 3' % v3, 'flatten %s 2' % m23, 'transpose %s' % v3, 'sumalong %s 2' % m23,
+        'maxalong %s -1' % v3, 'stdalong %s 1' % v3, 'at %s 5' % v3, 'at %s 0,0' % v3, 'full U 2,0 %s' % f2b(1.0), 'eye U 0',
+        'bp nil', 'equals %s nil' % v3,
+    ]
+    if k is not None:
+        calls = rng.sample(calls, min(k, len(calls)))
+    for c in calls:
+        if c.split(' ')[0] in ('at', 'bp', 'equals'):
+            p.add(c)
+        else:
+            p.bind(c, 'e')
+    # components
+    j1, j2, j3 = p.bind('mse', 'ej'), p.bind('bce', 'ej'), p.bind('ce', 'ej')
+    for j, (x, y) in ((j1, (v3, v4)), (j2, (m23, m23)), (j3, (v3, v3)), (j1, (v3, 'nil')), (j3, (m23, m32))):
+        p.bind('loss %s %s %s' % (j, x, y), 'e')
+    m = p.bind('accuracy', 'em'); p.add('acc %s %s %s' % (m, v3, v4)); p.add('acc %s %s %s' % (m, m23, m23)); p.add('result %s' % m)
+    f = p.bind('fc 3 2', 'ef'); p.bind('fwd %s %s' % (f, v3), 'e'); p.bind('fwd %s %s' % (f, m32), 'e'); p.bind('fwd %s %s' % (f, m23), 'e')
+    s = p.bind('softmax 2', 'ea'); p.bind('fwd %s %s' % (s, m23), 'e'); p.bind('fwd %s' % s, 'e')
+    o = p.bind('sgd nil', 'eo'); p.add('upd %s nilptr' % o)
+    pw = p.bind('weight %s 0' % f, 'ep'); p.add('upd %s %s' % (o, pw))      # no gradient yet: rejected
+
+def errors_first(q, rng):
+    """program `q` preceded by the batch of rejected calls"""
+    p = Prog(q.name + '_err', **q.opts)
+    p.tags = set(q.tags) | {'after-rejected-calls'}
+    p._n = 100000
+    error_prelude(p, rng)
+    p.lines += q.lines
+    return p
